@@ -92,6 +92,10 @@ func (l *DList[T]) InsertBefore(node *DoubleNode[T], value T) error {
 		newNode.prev.next = newNode
 	} else {
 		newNode.next = &head
+		head.prev = &l.DoubleNode
+		if head.next != nil {
+			head.next.prev = &head
+		}
 		// Move the pointer to the new node.
 		l.DoubleNode = *newNode
 	}
